@@ -6,10 +6,9 @@ C17 driver: one JSON request per line on stdin, one JSON answer per line on stdo
     "mds":[{"docker":bool,"image":str|null}], "translates":bool,
     "fs":{"existing":[str],"tempRoot":str,"outDirExists":bool},
     "outcome":{"chunks":[{"stdout":bool,"bytes":[nat]}],"ending":"success"|"docker_error"|"other_error","atCall":bool,"resultPresent":bool}
-  {"op":"run", inputs}            -> {"obs":OBS,"plan":{"ok":CALL}|{"err":class},"kinds":[event kinds],"runnable":bool,"allDecode":bool}
+  {"op":"run", inputs}            -> {"obs":OBS,"plan":{"ok":CALL}|{"err":class},"kinds":[event kinds],"runnable":bool}
   {"op":"spec", inputs,"obs":OBS} -> {"holds":bool,"failed":[clause names]}
   {"op":"path","s":str}           -> {"root","parts","name","parent","render"}
-  {"op":"utf8","bytes":[nat]}     -> {"valid":bool}
   {"op":"table"}                  -> the generated per-backend table
   OBS = {"ctorFailed","err":str|null,"returned":[str],"calls":[CALL],"seenFilelist":str|null,"packageOk","pulled","delivered","runDirLive","leftover"}
   CALL = {"image","command":[str],"volumes":[{"src":{"kind":"runDir"}|{"kind":"path","s":str}|{"kind":"named","n":str},"mount":str,"mode":str|null}],"remove","stream"}
@@ -128,7 +127,7 @@ def handle (line : String) : String :=
           | .ok c => Json.mkObj [("ok", callJson c)]
           | .error e => Json.mkObj [("err", e.className)]
         pure (Json.mkObj [("obs", obsJson (observe i.a r)), ("plan", pl), ("kinds", jstrs (r.1.map kindOf)),
-          ("runnable", decide (Runnable i.a i.q i.fs)), ("allDecode", decide (AllDecode i.o))])
+          ("runnable", decide (Runnable i.a i.q i.fs))])
       else if op == "spec" then
         let i ← parseInputs j
         let ob ← parseObs (← j.getObjVal? "obs")
@@ -137,9 +136,6 @@ def handle (line : String) : String :=
       else if op == "path" then
         let p := parsePath (← (← j.getObjVal? "s").getStr?)
         pure (Json.mkObj [("root", p.root), ("parts", jstrs p.parts), ("name", p.name), ("parent", p.parent.render), ("render", p.render)])
-      else if op == "utf8" then
-        let bs ← (← (← j.getObjVal? "bytes").getArr?).toList.mapM (·.getNat?)
-        pure (Json.mkObj [("valid", utf8Valid bs)])
       else if op == "table" then
         pure (Json.mkObj [("backends", Json.arr (backends.map rowJson).toArray),
           ("volumePrefix", FaxVerif.Generated.C17.volumePrefix), ("resultFileName", FaxVerif.Generated.C17.resultFileName),
